@@ -119,6 +119,7 @@ type stackOpts struct {
 	rateLimit    *config.RateLimit
 	legacyCookie bool
 	ssoDomain    string   // sso.domain of the server and the proxy ("" = "wonderwall")
+	acrSupported []string // provider metadata acr_values_supported (nil = the default list)
 	sidOptional  bool     // provider metadata does not advertise front-channel session support (C03)
 	audiences    []string // openid.audiences: extra trusted audiences (C03)
 	// C14/C17 (cookies.go, retry.go)
@@ -296,6 +297,9 @@ func newStack(o stackOpts) (*stack, error) {
 		p: &hProvider{issuer: idpIssuer, par: o.par, issParam: o.issParam, sidRequired: !o.sidOptional,
 			acrSupported: openidconfig.Supported{"idporten-loa-substantial", "idporten-loa-high", "other-acr"},
 			locales:      openidconfig.Supported{"nb", "en"}}}
+	if o.acrSupported != nil {
+		s.oidc.p.acrSupported = openidconfig.Supported(o.acrSupported)
+	}
 	s.idp = newFakeIDP(cfg.OpenID.ClientID)
 	s.key = []byte(deploymentKey)
 	s.crypter = verifx.NewCrypter(s.key)
